@@ -112,23 +112,32 @@ fn codec_part(ctx: &Ctx) {
     }
 }
 
-fn api_case(ctx: &Ctx, stream: &str, idx: u64, cfg: &WCfg, klen: usize, vlen: usize) {
-    // three entries: a small one, the boundary one, a small one (so the boundary key is also
-    // carried into index blocks as the last key of its block)
-    let mut entries: Vec<Entry> = Vec::new();
-    entries.push((vec![0u8], vec![1, 2, 3]));
-    let mut k = vec![1u8; klen.max(1)];
-    if klen == 0 {
-        // the empty key must come first
-        entries.clear();
-        k = vec![];
-    } else {
+fn api_case(ctx: &Ctx, stream: &str, idx: u64, cfg: &WCfg, klen: usize, vlen: usize, placement: usize) {
+    // the boundary entry alone in the file (placement 0), last (1), first (2) or in the middle (3),
+    // so that it is also carried into index blocks as the last key of its block
+    let mut k = vec![1u8; klen];
+    if klen > 0 {
         k[klen - 1] = 7;
     }
     let v: Vec<u8> = (0..vlen).map(|i| (i % 251) as u8).collect();
-    entries.push((k, v));
-    entries.push((vec![2u8; 3], vec![9; 5]));
+    let before: Entry = (vec![0u8], vec![1, 2, 3]);
+    let after: Entry = (vec![2u8; 3], vec![9; 5]);
+    let mut entries: Vec<Entry> = vec![(k.clone(), v)];
+    let can_precede = klen > 0 && k.as_slice() > before.0.as_slice();
+    match placement {
+        1 if can_precede => entries.insert(0, before),
+        2 => entries.push(after),
+        3 => {
+            if can_precede {
+                entries.insert(0, before);
+            }
+            entries.push(after);
+        }
+        _ => {}
+    }
     entries.sort();
+    entries.dedup_by(|a, b| a.0 == b.0);
+    let target_key = k;
     let detail = |what: &str, obs: String| J::obj().set("config", cfg.render()).set("key_len", klen).set("value_len", vlen).set("what", what).set("observed", obs);
     let bytes = match gen::build_file(cfg, &entries) {
         Ok(b) => b,
@@ -146,19 +155,20 @@ fn api_case(ctx: &Ctx, stream: &str, idx: u64, cfg: &WCfg, klen: usize, vlen: us
                 break;
             }
         }
-        let target = &entries[entries.len() - 2].0;
+        let target = &target_key;
         let g = c.move_on_key_greater_than_or_equal_to(target).map_err(|e| e.to_string())?.map(|(k, v)| (k.to_vec(), v.to_vec()));
         Ok((out, g))
     });
     ctx.count("api_entries_checked", 1);
     ctx.tag("api_length_classes", &format!("key {} bytes / value {} bytes", ref_leb128(klen as u32).len(), ref_leb128(vlen as u32).len()));
-    ctx.eval(crate::prng::mix(&[klen as u64, vlen as u64, crate::prng::hash_bytes(1, cfg.render().as_bytes())]), true);
+    ctx.eval(crate::prng::mix(&[klen as u64, vlen as u64, placement as u64, crate::prng::hash_bytes(1, cfg.render().as_bytes())]), true);
+    ctx.tag("api_placements", ["alone", "last", "first", "middle"][placement]);
     match r {
         Ok(Ok((out, g))) => {
             if let Some(d) = crate::cur::first_diff(&entries, &out) {
                 ctx.violation("api-entry-altered", stream, idx, detail("entry with boundary lengths reads back altered", d));
             }
-            if g.as_ref() != Some(&entries[entries.len() - 2]) {
+            if g.as_ref() != entries.iter().find(|e| e.0 == target_key) {
                 ctx.violation("api-entry-altered", stream, idx, detail("seek to the boundary-length key returns something else", format!("{:?}", g.map(|(k, v)| (k.len(), v.len())))));
             }
         }
@@ -194,13 +204,13 @@ pub fn run(ctx: &Ctx) -> i32 {
     }
     // the 2^28 cases need ~1.5 GiB each: run them two at a time at most
     let (bigs, smalls): (Vec<_>, Vec<_>) = cases.into_iter().partition(|c| c.1 >= (1 << 28) - 1 || c.2 >= (1 << 28) - 1);
-    ctx.par("api", smalls.len(), false, |idx, _| {
-        let (cfg, kl, vl) = &smalls[idx as usize];
-        api_case(ctx, "api", idx, cfg, *kl, *vl);
+    ctx.par("api", smalls.len() * 4, false, |idx, _| {
+        let (cfg, kl, vl) = &smalls[idx as usize / 4];
+        api_case(ctx, "api", idx, cfg, *kl, *vl, idx as usize % 4);
     });
     for (i, (cfg, kl, vl)) in bigs.iter().enumerate() {
         if ctx.only.is_none() || ctx.only.as_ref().map(|o| o.0 == "api-big" && o.1 == i as u64).unwrap_or(false) {
-            api_case(ctx, "api-big", i as u64, cfg, *kl, *vl);
+            api_case(ctx, "api-big", i as u64, cfg, *kl, *vl, 3);
         }
     }
     let full = ctx.counter("exhaustive_2^32_sweep_done") > 0;
